@@ -347,7 +347,19 @@ class _Unroller:
     def run(self, tree):
         for st in tree.body:
             if isinstance(st, ast.ClassDef):
-                self.classes[st.name] = _collect(st.body)
+                sc = self.classes[st.name] = _collect(st.body)
+                # class C(namedtuple('C', ['a', 'b'])): C._fields
+                for b in st.bases:
+                    if isinstance(b, ast.Call) and (
+                            isinstance(b.func, ast.Name) and
+                            b.func.id == 'namedtuple' or
+                            isinstance(b.func, ast.Attribute) and
+                            b.func.attr == 'namedtuple') and len(
+                                b.args) == 2 and _is_table(b.args[1]) and \
+                            all(isinstance(x, ast.Constant)
+                                for x in b.args[1].elts) and \
+                            '_fields' not in sc.counts:
+                        sc.tables['_fields'] = b.args[1]
         self._block_owner(tree, None, set())
 
     def _block_owner(self, node, cls_scope, local_names):
@@ -362,8 +374,79 @@ class _Unroller:
         for c in getattr(node, 'cases', []) or []:
             c.body = self._block(c.body, cls_scope, local_names)
 
+    def _comprehensions(self, st, cls_scope, local_names):
+        """[f(x) for x in TABLE] / {k: v for k in TABLE} over a literal
+        table (one generator, no conditions) as the display it builds."""
+        outer = self
+
+        class T(ast.NodeTransformer):
+            def _rows(self, node):
+                if len(node.generators) != 1:
+                    return None
+                g = node.generators[0]
+                if g.ifs or g.is_async:
+                    return None
+                table = outer.table(g.iter, cls_scope, local_names)
+                if table is None:
+                    return None
+                t = g.target
+                if isinstance(t, ast.Name):
+                    names = [t.id]
+                elif isinstance(t, (ast.Tuple, ast.List)) and all(
+                        isinstance(x, ast.Name) for x in t.elts):
+                    names = [x.id for x in t.elts]
+                else:
+                    return None
+                rows = []
+                for row in table.elts:
+                    if isinstance(t, ast.Name):
+                        cells = [row]
+                    elif isinstance(row, (ast.Tuple, ast.List)) and len(
+                            row.elts) == len(names):
+                        cells = list(row.elts)
+                    else:
+                        return None
+                    if not all(_simple_cell(c) for c in cells):
+                        return None
+                    rows.append(dict(zip(names, cells)))
+                return rows
+
+            def visit_ListComp(self, node):
+                self.generic_visit(node)
+                rows = self._rows(node)
+                if rows is None:
+                    return node
+                funcs = cls_scope.funcs if cls_scope is not None else set()
+                elts = [_Subst(r, funcs).visit(copy.deepcopy(node.elt))
+                        for r in rows]
+                outer.count += 1
+                new = ast.copy_location(ast.List(elts=elts, ctx=ast.Load()),
+                                        node)
+                _fold_getattr(new)
+                return new
+
+            def visit_DictComp(self, node):
+                self.generic_visit(node)
+                rows = self._rows(node)
+                if rows is None:
+                    return node
+                funcs = cls_scope.funcs if cls_scope is not None else set()
+                ks = [_Subst(r, funcs).visit(copy.deepcopy(node.key))
+                      for r in rows]
+                vs = [_Subst(r, funcs).visit(copy.deepcopy(node.value))
+                      for r in rows]
+                outer.count += 1
+                new = ast.copy_location(ast.Dict(keys=ks, values=vs), node)
+                _fold_getattr(new)
+                return new
+        return T().visit(st)
+
     def _block(self, body, cls_scope, local_names):
         out = []
+        body = [st if isinstance(st, (ast.FunctionDef, ast.ClassDef,
+                                      ast.AsyncFunctionDef))
+                else self._comprehensions(st, cls_scope, local_names)
+                for st in body]
         for i, st in enumerate(body):
             if isinstance(st, ast.ClassDef):
                 sc = self.classes.get(st.name) or _collect(st.body)
